@@ -6,6 +6,7 @@ import os
 import sys
 
 ENGINES = {
+    "C05": "engines.c05",
     "C06": "engines.c06",
     "C09": "engines.c09",
     "C12": "engines.c12",
